@@ -1,6 +1,6 @@
 """Rule C08: no public operation panics / overflows in any reachable state."""
 import itertools
-from .mirtab import Engine, Undecided, check_partition, term_str, C
+from .mirtab import Engine, Undecided, check_partition, term_str, C, ev
 from .extract import (observer_fields, extract_all_layouts, ScanTable, scancode_impls, initial_state_of, leaf_where, writers_of, public_roots, caller_map,
                       iter_bodies, PANIC, span_line, conc, value_atoms)
 from .rules_event import find_generic_method, field_index, _St, KNOWN_API
@@ -115,7 +115,7 @@ def check_no_panic(ctx, rep, tier):
 
         def setup(st, argvals):
             for n, d in doms.items():
-                en.declare_atom(st, n, 'bool', d)
+                en.declare_atom(st, n, atom_tk.get(n, 'bool'), d)
             st.store[('H', 'self')] = value
             if ghost and nargs >= 2:
                 st.store[('L', 0, 2)] = en.declare_atom(st, ghost, 'bool', (0, 1))
@@ -134,8 +134,56 @@ def check_no_panic(ctx, rep, tier):
         return v
     # precise exploration: abstract states with ghost bits, breadth-first, states identified structurally
     seen = {}
+    atom_tk = {}
     frontier = [({}, state0, 0)]
     seen[state0] = 0
+    # functions that build a frame decoder from their arguments seed the exploration with whatever they can produce
+    for g in ctx.facts['fns']:
+        o = g.get('output') or {}
+        if g.get('derived') or g.get('kind') == 'Closure' or g['body']['arg_count'] == 0 or g['path'] == f_new['path']:
+            continue
+        if o.get('k') != 'adt' or o.get('path') != PS2:
+            continue
+        if g['name'] == 'clone' and (g.get('impl_trait') or '').split('::')[-1] == 'Clone':
+            continue
+        try:
+            eg = Engine(prog)
+            for lf in eg.run(g['path']):
+                if lf.kind != 'return' or lf.ret is None or lf.ret[0] != 'adt':
+                    continue
+                val = norm(lf.ret)
+                gd = {}
+                for x in val[3]:
+                    for n_ in value_atoms(x):
+                        if lf.doms.get(n_) is None:
+                            raise Undecided('frame decoder built from an unbounded value')
+                        gd[n_] = lf.doms[n_]
+                for x in val[3]:
+                    stack_ = [x]
+                    while stack_:
+                        y = stack_.pop()
+                        if y[0] == 'a':
+                            atom_tk[y[1]] = y[2]
+                        elif y[0] == 't':
+                            stack_.extend(y[2])
+                joint = 1
+                for d_ in gd.values():
+                    joint *= len(d_)
+                if joint > 4096:
+                    # too many concrete states to follow through whole frames: look one operation ahead only, and say so
+                    for fn_ in [prog.fns[p_] for p_ in mutators]:
+                        tb_ = fn_['body']['arg_count'] >= 2 and fn_['body']['locals'][2]['ty'].get('k') == 'bool'
+                        en_, lvs_ = run_state(fn_, gd, val, ghost='b0' if tb_ else None)
+                        for l2 in lvs_:
+                            if l2.kind != 'return':
+                                report_panic(rep, 'Ps2Decoder::' + fn_['name'], l2, 'in a state built by %s: %s' % (g['path'], term_str(val)[:120]))
+                    raise Undecided('it can build %d different decoder states; only one operation ahead was explored' % joint)
+                if val not in seen:
+                    seen[val] = 0
+                    frontier.append((gd, val, 0))
+            rep.note('%s builds a Ps2Decoder from its arguments: the states it can produce join the exploration' % g['path'])
+        except Undecided as u:
+            rep.finding('C08 Ps2Decoder producer %s undecided' % g['path'], 'a function that builds a frame decoder from its arguments could not be analysed: %s' % u)
     steps = 0
     closed = True
     nstates = 0
@@ -161,7 +209,7 @@ def check_no_panic(ctx, rep, tier):
                             closed = False
                             continue
                         seen[post] = depth + 1
-                        gh = {n: d for n, d in lf.doms.items() if n.startswith('b') and n[1:].isdigit()}
+                        gh = {n: d for n, d in lf.doms.items() if (n.startswith('b') and n[1:].isdigit()) or n in atom_tk}
                         nxt.append((gh, post, depth + 1))
         frontier = nxt
     rep.analysed['Ps2Decoder_abstract_states'] = len(seen)
@@ -206,6 +254,50 @@ def check_no_panic(ctx, rep, tier):
                             raise Undecided('extra writer %s leaves a state that cannot be enumerated' % p)
                     for s in itertools.product(*doms):
                         reach |= t.reachable(s)
+        # functions that BUILD a decoder from their arguments (`From<OtherSet>`, a `with_state(..)` constructor, ...) seed the
+        # reachable set with every state they can produce (new() and the argument-less ones are seeds already)
+        short = self_str.split('::')[-1]
+        for g in ctx.facts['fns']:
+            o = g.get('output') or {}
+            if g.get('derived') or g.get('kind') == 'Closure' or g['body']['arg_count'] == 0 or g['path'] == newp:
+                continue
+            if o.get('k') != 'adt' or o.get('path', '').split('::')[-1] != short:
+                continue
+            if g['name'] == 'clone' and (g.get('impl_trait') or '').split('::')[-1] == 'Clone':
+                continue          # a faithful copy (C07's rule) adds no state
+            try:
+                en = Engine(prog)
+                for lf in en.run(g['path']):
+                    if lf.kind != 'return' or lf.ret is None:
+                        continue
+                    from .extract import flat_scalars
+                    import itertools
+                    fl = flat_scalars(lf.ret)
+                    doms = []
+                    for x in fl:
+                        if x[0] == 'c':
+                            doms.append([x[1]])
+                        elif x[0] == 'a' and lf.doms.get(x[1]) is not None:
+                            doms.append(sorted(lf.doms[x[1]]))
+                        else:
+                            names_ = value_atoms(x)
+                            if not names_ or any(lf.doms.get(n_) is None for n_ in names_):
+                                raise Undecided('state built from an unbounded value')
+                            vals_ = set()
+                            for combo in itertools.product(*[sorted(lf.doms[n_]) for n_ in names_]):
+                                vals_.add(ev(x, dict(zip(names_, combo))))
+                            doms.append(sorted(vals_))
+                    keep_ = getattr(t, 'keep', list(range(len(fl))))
+                    nstates_ = 1
+                    for i_ in keep_:
+                        nstates_ *= len(doms[i_])
+                    if nstates_ > 4096:
+                        raise Undecided('too many producible states')
+                    for s_ in itertools.product(*doms):
+                        reach |= t.reachable(s_)
+                rep.note('%s builds a %s from its arguments: the states it can produce were added to the reachable set' % (g['path'], short))
+            except Undecided as u:
+                rep.finding('C08 %s producer %s undecided' % (short, g['path']), 'a function that builds a decoder from its arguments could not be analysed: %s' % u)
         name = self_str.split('::')[-1]
         for fl in prog.adt(adt_path)['variants'][0]['fields']:
             if fl['vis'] == 'pub':
@@ -308,4 +400,5 @@ def check_no_panic(ctx, rep, tier):
     rep.rule = ('every public operation is interpreted abstractly over all inputs x the reachable-state invariant of its component (frame decoder: '
                 'abstract register states closed under all field writers; scancode sets: states reachable over the extracted automaton; event decoder: '
                 'all 512 modifier states; layouts: all 124 x 512 x 2 cells); no path class may end in an Assert failure, a panic entry point or an '
-                'unreachable terminator; non-trivial = trap sites in the inventory, each shown infeasible')
+                'unreachable terminator; the frame decoder\'s fields are written by its own operations only; the locals of one function stay below 8 KiB; '
+                'non-trivial = trap sites in the inventory, each shown infeasible')
